@@ -4,17 +4,20 @@
    BinRelToTernary adaptor with its reverse maps) on top of the C18 model of TrRelUnionFind (UF/TrUfModel.v), following the code
    AFTER the five repairs this property led to (/repo c22d480, fda3f9e, 2e6bc3e, 8bc4a03, 36a9ed3).
 
-   What is proved here
-     c12_nonrecursive_exact        (full, unconditional, binary form) a stratum that only inserts (non-recursive use) ends without
-                                   failure, and every view of what it leaves serves exactly the reflexive transitive closure
-     c12_total_exact               a Total-shaped version over a structure satisfying C18's invariant serves exactly the closure
-     c12_sound_partial             (binary form, EVERY sequence of operations) everything served lies in the closure of the inserted pairs
-     c12_never_panics_partial      (binary form, EVERY sequence of operations) no operation of the provider fails and the inner
-                                   semi-naive loop of every merge terminates (within (number of classes)^2 + 2 rounds)
-                                   both relative to the interface [truf_iface] of the union-find structure
-     c12_iface_tinv_except_node    C18's invariant satisfies every clause of that interface except the one for add_node_new on a new element
+   What is proved here (all unconditional; "partial" = a part of the property's statement, see "what is missing" below)
+     c12_nonrecursive_exact        binary form, non-recursive use: a stratum that only inserts ends without failure, and every view of
+                                   what it leaves serves EXACTLY the reflexive transitive closure (soundness and completeness)
+     c12_total_exact               a Total-shaped version over a structure satisfying C18's invariant (in its weak form, which every
+                                   structure the provider builds satisfies) serves exactly the closure of the pairs it was built from
+     c12_sound_partial             binary form, EVERY sequence of operations: every operation runs, and everything any view of delta,
+                                   total or the stored relation serves lies in the closure of the pairs handed to insert
+     c12_never_panics_partial      binary form, EVERY sequence of operations: no operation of the provider fails (no assert, unwrap,
+                                   index, "unexpected shape" panic) and the inner semi-naive loop of every merge terminates
+                                   (within (number of classes)^2 + 2 rounds)
+     c12_protocol_any_union_find   the same two statements for ANY union-find structure satisfying the interface [truf_iface]
+     c12_iface_discharged          C18's invariant in its weak form satisfies that interface (tr_add, add_node_new, the queries)
      c12_inner_loop_round          one round of the inner loop of the merge keeps the invariant "every processed class pair is
-                                   saturated against total and new" (the completeness half of the loop, class level, unconditional)
+                                   saturated against total and new" (the completeness half of the loop, class level)
    Provider law P3 (nothing becomes readable from total without having been served as delta) is used in the form
      total_{i+1}  subset of  total_i + delta_i + delta_{i+1}
    (checker p3_check).  The literal form  total_{i+1} subset of total_i + delta_i  of DESIGN 5/C10 is violated by the repaired
@@ -23,10 +26,9 @@
    semi-naive argument only needs the weaker form, because the delta variants of the coming iteration cover such a tuple.
    The five former refutations are now positive (the theorems c12_witness_...); the refutations themselves are kept on the model of the code
    before the repairs (Byods/TrUfProvBeforeFix.v, module BeforeFix): the theorems c12_before_fix_refuted_...
-   What is missing (carried by the tie only): the discharge of [truf_iface] for structures that went through add_node_new on a new
-   element inside a Delta-shaped merge (C18's invariant asks for an entry of every live class in both connection maps, add_node_new
-   creates none); completeness of delta + total and law P3 for EVERY recursive history (the round lemma is the core of it);
-   soundness and panic-freedom of the ternary adaptor for every history. *)
+   What is missing (carried by the tie only): completeness of delta + total and law P3 for EVERY recursive history of the binary
+   form (c12_inner_loop_round is the core of it; the step from class pairs to element pairs and across merges is not done);
+   soundness, completeness and panic-freedom of the ternary adaptor for every history (only the five witnesses and the tie). *)
 From Coq Require Import List Arith Bool ZArith.
 From AV Require Import UF.UfBase.
 From AV Require Import UF.TrUfModel.
@@ -46,20 +48,27 @@ Theorem c12_nonrecursive_exact : forall dom ins,
     tinv (uniq ins []) U /\ exact_version ins (CTotal U).
 Proof. exact nonrec_exact. Qed.
 
-Theorem c12_total_exact : forall E st, tinv E st -> exact_version E (CTotal st).
+Theorem c12_total_exact : forall (P : nat -> Prop) E st, tinvP P E st -> exact_version E (CTotal st).
 Proof. exact total_exact. Qed.
 
-(* ---- every history of the binary form, relative to the interface of the union-find structure *)
-Theorem c12_sound_partial : forall I, truf_iface I -> forall dom ops,
+(* ---- every history of the binary form *)
+Theorem c12_sound_partial : forall dom ops,
   exists st, run_state (bin_prov dom) (ps_init (bin_prov dom)) ops = Ok st /\
      sound_version (args ops) (s_delta st) /\ sound_version (args ops) (s_total st) /\ sound_version (args ops) (s_stored st).
-Proof. exact bin_protocol_sound. Qed.
+Proof. exact bin_sound. Qed.
 
-Theorem c12_never_panics_partial : forall I, truf_iface I -> forall dom ops n e, ~ In (RPanic n e) (run_bin dom ops).
-Proof. exact bin_never_panics_partial. Qed.
+Theorem c12_never_panics_partial : forall dom ops n e, ~ In (RPanic n e) (run_bin dom ops).
+Proof. exact bin_never_panics. Qed.
 
-Theorem c12_iface_tinv_except_node : iface_except_node tinv.
-Proof. exact tinv_iface_except_node. Qed.
+(* the protocol layer is correct for any union-find structure with the interface; C18's structure has it *)
+Theorem c12_protocol_any_union_find : forall I, truf_iface I ->
+  (forall dom ops, exists st, run_state (bin_prov dom) (ps_init (bin_prov dom)) ops = Ok st /\
+     sound_version (args ops) (s_delta st) /\ sound_version (args ops) (s_total st) /\ sound_version (args ops) (s_stored st)) /\
+  (forall dom ops n e, ~ In (RPanic n e) (run_bin dom ops)).
+Proof. intros I HI. split; [exact (bin_protocol_sound I HI)|exact (bin_never_panics_partial I HI)]. Qed.
+
+Theorem c12_iface_discharged : truf_iface tinv_weak.
+Proof. exact tinv_weak_iface. Qed.
 
 (* ---- the inner loop of the merge, class level: one round keeps "every processed pair is saturated against total and new" *)
 Theorem c12_inner_loop_round : forall conn rev ncm,
@@ -74,7 +83,7 @@ Proof. exact round_ok. Qed.
 (* ---- law P3: the form that holds, and why the literal form cannot *)
 Theorem c12_literal_p3_fails : protocol_ok wit_f10 = true /\ p3_check wit_f10 (run_bin 3 wit_f10) None = true /\
   p3_literal_check wit_f10 (run_bin 3 wit_f10) None = false.
-Proof. split; [apply wit_f10_passes|]. split; [apply wit_f10_passes|exact wit_f10_literal]. Qed.
+Proof. exact wit_f10_literal. Qed.
 
 (* ---- the witnesses of the five repaired defects pass *)
 Theorem c12_witness_new_reflexive : protocol_ok wit_f10 = true /\ p3_check wit_f10 (run_bin 3 wit_f10) None = true /\
@@ -133,7 +142,8 @@ Print Assumptions c12_nonrecursive_exact.
 Print Assumptions c12_total_exact.
 Print Assumptions c12_sound_partial.
 Print Assumptions c12_never_panics_partial.
-Print Assumptions c12_iface_tinv_except_node.
+Print Assumptions c12_protocol_any_union_find.
+Print Assumptions c12_iface_discharged.
 Print Assumptions c12_inner_loop_round.
 Print Assumptions c12_literal_p3_fails.
 Print Assumptions c12_witness_new_reflexive.
